@@ -140,6 +140,8 @@ def content_robustness_part(rep, tier):
     for c in (b'\x81', b'\x81\x40\x81', b'\xeb\xbf\n', b'\x93\x5f\n', b'\x93\x5f\r', b'\x93\x5f\x93', b'\xb0\xa1\n', 0, 7, 10 ** 30):
         for mode in (None, 'numeric', 'byte', 'kanji', 'hanzi'):
             calls.append(call('make', c, **({} if mode is None else {'mode': mode})))
+    # spellings of the encoding argument (aliases, case) with and without ECI at every length: honoured means the symbol still decodes
+    calls += gen.eci_boundary_calls(call, tier == 'quick')
     obs = symobs.observe_many([c for c in calls if c['api'] != 'make_sequence'], props=['C01', 'C02', 'C03'])
     for c in calls:
         if c['api'] == 'make_sequence':             # one observation per returned symbol, or one refusal
